@@ -373,6 +373,12 @@ func (f *FnEnc) encode() {
 			f.emit("(assert %s)", tf)
 		}
 		f.fnKeys[p] = "param:" + p.Name()
+		if f.c != nil && hasTag(f.c.BoxPtr, p.Name()) {
+			if pt, ok := p.Type().Underlying().(*types.Pointer); ok {
+				f.emit("(assert (> %s 0)) ; boxptr %s", c, p.Name())
+				f.addrs[p] = &Addr{Kind: akBox, Ref: c, Comp: "Box." + f.e.reg.sortOf(pt.Elem()), Typ: pt.Elem()}
+			}
+		}
 	}
 	for _, fv := range fn.FreeVars {
 		s := f.e.reg.sortOf(fv.Type())
